@@ -183,6 +183,9 @@ class CatLinearOperator(LinearOperator):
         target_shape = torch.broadcast_shapes(*[index.shape for index in indices])
         indices = [index.expand(target_shape).reshape(-1) for index in indices]
         cat_dim_indices = indices[self.cat_dim]
+        # negative entries: the offsets below are relative to the start of the concatenated dimension
+        cat_dim_indices = torch.where(cat_dim_indices < 0, cat_dim_indices + self.idx_to_tensor_idx.numel(), cat_dim_indices)
+        indices[self.cat_dim] = cat_dim_indices
 
         # Find out for which indices we switch to different tensors
         target_tensors = self.idx_to_tensor_idx[cat_dim_indices]
